@@ -141,7 +141,7 @@ class NFEval:
                 return x.terms[0]
             # factor out the rational content (coefficient of the first term in canonical
             # order) so that (2a+2b), (a+b) and (a/2+b/2) share one atom
-            c = x.terms[0].coef
+            c = abs(x.terms[0].coef)      # positive content only: no sign is pulled out of a root
             if c != 1:
                 x = Sum([Mono(t.coef / c, t.f) for t in x.terms])
             k = x.key()
